@@ -117,3 +117,19 @@ def _m_name_in_table(ip, args, kwargs, node):
         if table[nm] is fn:
             return nm
     return None
+
+
+@models.model(int_of_str)
+def _m_int_of_str(ip, args, kwargs, node):
+    """spec-level int(): defined on digit strings (pure, no fork); other strings give an unconstrained value"""
+    v = args[0]
+    if isinstance(v, str):
+        return int(v)
+    if isinstance(v, SOpt):
+        v = v.v
+    if ip.ctx.decide_by_language(z3.InRe(v.t, models.DIGITS1)) is True:
+        return models.int_of_digits(ip, v.t)
+    r = z3.Int(models.fresh_name('spec_int'))
+    ip.ctx.assume(z3.Implies(z3.InRe(v.t, models.DIGITS1), r == z3.StrToInt(v.t)))
+    models.str_to_int_facts_guarded(ip, v.t, r)
+    return SV(r)
